@@ -358,6 +358,12 @@ package scheduler
 //@   requires nodes_wf(g) && graph_wf(g)
 //@   requires forall i int :: 0 <= i && i < len(g.nodes) ==> has(g.dict, g.nodes[i].id)
 //@   modifies *
+//@   records eff.sched = old(eff.sched) + 1
+//@   ensures [C03 scheduling_writes_no_history] eff.hist == old(eff.hist) && eff.sock == old(eff.sock) &&
+//@        hist.writes == old(hist.writes) && hist.opens == old(hist.opens) && hist.closes == old(hist.closes) &&
+//@        hist.last_write_sched == old(hist.last_write_sched) && hist.writes_at_close == old(hist.writes_at_close) &&
+//@        probe.count == old(probe.count) && probe.ok == old(probe.ok) && obs.agent_setup_err == old(obs.agent_setup_err) && obs.precond_err == old(obs.precond_err) &&
+//@        obs.cycle == old(obs.cycle) && obs.cycle_calls == old(obs.cycle_calls)
 //@   expect calls go (*Scheduler).Schedule$1 >= 1
 //@   expect calls isReady >= 1
 //@   assert before go [C01 deps_ok_at_launch]
@@ -411,7 +417,7 @@ package scheduler
 //@   props C14 C01
 //@   safety
 //@   requires g.from != nil && g.to != nil && g.from != g.to
-//@   modifies contents(g.from), contents(g.to), heap(elems(int)), heap(alloc)
+//@   modifies contents(g.from), contents(g.to), heap(alloc)
 //@   ensures [C14 edge_recorded_backward] len(g.to[to.id]) == old(len(g.to[to.id])) + 1 && g.to[to.id][old(len(g.to[to.id]))] == from.id
 //@   ensures [C14 edge_recorded_forward] len(g.from[from.id]) == old(len(g.from[from.id])) + 1 && g.from[from.id][old(len(g.from[from.id]))] == to.id
 //@   ensures [C14 earlier_edges_kept] forall j int :: 0 <= j && j < old(len(g.to[to.id])) ==> g.to[to.id][j] == old(g.to[to.id][j])
@@ -442,7 +448,7 @@ package scheduler
 //@   safety
 //@   requires dict_wf(g) && ids_wf(g) && nodes_wf(g) && g.from != nil && g.to != nil && g.from != g.to
 //@   requires forall k int, j int :: 0 <= j && j < len(g.to[k]) ==> has(g.dict, g.to[k][j])
-//@   modifies contents(g.from), contents(g.to), heap(elems(int)), heap(alloc), ghost obs.cycle, ghost obs.cycle_calls
+//@   modifies contents(g.from), contents(g.to), heap(alloc), ghost obs.cycle, ghost obs.cycle_calls
 //@   expect calls (*ExecutionGraph).hasCycle >= 1
 //@   assert before (*ExecutionGraph).hasCycle [C14 cycle_test_sees_every_edge]
 //@        forall i int, j int :: 0 <= i && i < len(g.nodes) && 0 <= j && j < len(g.nodes[i].data.Step.Depends) ==> edge_present(g, i, j)
@@ -480,7 +486,7 @@ package scheduler
 //@ fn NewExecutionGraph(lg, steps) (g, err)
 //@   props C14 C01
 //@   requires nextNodeID > 0
-//@   modifies *
+//@   modifies heap(alloc), nextNodeID, ghost obs.cycle, ghost obs.cycle_calls
 //@   ensures [C14 refused_graph_is_nil] err != nil ==> g == nil
 //@   ensures [C14 dangling_dependency_is_refused]
 //@        (exists i int, j int :: 0 <= i && i < len(steps) && 0 <= j && j < len(steps[i].Depends) && old(steps_absent(steps, steps[i].Depends[j]))) ==> err != nil
@@ -509,3 +515,30 @@ package scheduler
 //@   safety
 //@   requires nodes_wf(g)
 //@   modifies heap(alloc)
+
+//@ fn New(cfg) (sc)
+//@   props C03 C15
+//@   modifies heap(alloc)
+//@   ensures sc != nil && !wasAllocated(sc)
+//@   ensures [C03 dry_flag_copied] sc.dry == cfg.Dry
+//@   ensures [C15 limit_copied] sc.maxActiveRuns == cfg.MaxActiveRuns
+//@   ensures sc.timeout == cfg.Timeout && sc.canceled == 0 && sc.lastError == nil
+//@   ensures sc.onExit == cfg.OnExit && sc.onSuccess == cfg.OnSuccess && sc.onFailure == cfg.OnFailure && sc.onCancel == cfg.OnCancel
+
+//@ fn (*Node).cancel(n)
+//@   props C04 C05
+//@   modifies n.data.State.Status
+//@   ensures [C05 cancel_marks_running_as_canceled] n.data.State.Status == ite(old(n.data.State.Status) == NodeStatusRunning, NodeStatusCancel, old(n.data.State.Status))
+
+//@ fn (*Scheduler).Cancel(sc, g)
+//@   props C04 C05
+//@   requires nodes_wf(g)
+//@   modifies sc.canceled, heap(Node.data.State.Status)
+//@   ensures [C04 cancel_sets_flag] sc.canceled == 1
+//@   ensures [C05 cancel_marks_only_running_nodes] forall i int :: 0 <= i && i < len(g.nodes) ==>
+//@        g.nodes[i].data.State.Status == ite(old(g.nodes[i].data.State.Status) == NodeStatusRunning, NodeStatusCancel, old(g.nodes[i].data.State.Status))
+//@   loop 0 invariant sc.canceled == 1
+//@   loop 0 invariant forall i int :: 0 <= i && i < len(g.nodes) ==>
+//@        (g.nodes[i].data.State.Status == old(g.nodes[i].data.State.Status) ||
+//@         (old(g.nodes[i].data.State.Status) == NodeStatusRunning && g.nodes[i].data.State.Status == NodeStatusCancel))
+//@   loop 0 invariant forall i int :: 0 <= i && i <= idx ==> g.nodes[i].data.State.Status != NodeStatusRunning
